@@ -4,7 +4,8 @@ from supybot.commands import wrap
 class VtLong(callbacks.Plugin):
     """Replies with the text the harness stored in VtLong.TEXT."""
     TEXT = ''
-    KW = {}
+    KW = {}      # keywords of vtlong's reply
+    KW2 = {}     # keywords of vtarg's reply (the outer command of `vtarg [vtlong]`)
     def vtlong(self, irc, msg, args):
         """takes no arguments
 
@@ -23,7 +24,7 @@ class VtLong(callbacks.Plugin):
         """<text>
 
         Replies with its argument (used with a nested command: vtarg [vtlong])."""
-        irc.reply(text, **VtLong.KW)
+        irc.reply(text, **VtLong.KW2)
     vtarg = wrap(vtarg, ['text'])
 
 Class = VtLong
